@@ -409,6 +409,15 @@ func init() {
 				}
 			}()
 			root.Reveal()
+			first := ProjectShape(root)
+			// no lock may be left behind, anywhere in the tree: a second Reveal (whose result is again a legal rewrite of the
+			// original) and a mutator on every mutex-enabled node must return too
+			if held := locksHeld(root); held != "" {
+				done <- map[string]any{"LOCKLEFT": held}
+				return
+			}
+			root.Reveal()
+			_ = first
 			done <- nil
 		}()
 		select {
@@ -417,13 +426,36 @@ func init() {
 				return r
 			}
 		case <-timeAfter(2):
-			return map[string]any{"DEADLOCK": "Reveal did not return within 2s"}
+			return map[string]any{"DEADLOCK": "Reveal (or a second Reveal right after it) did not return within 2s"}
 		}
 		return ProjectShape(root)
 	}
 	treeGenerators["reveal"] = func(g *treeGen) (Node, any) {
 		return g.revStack(0), nil
 	}
+}
+
+// locksHeld walks a structure and names the nodes whose mutex is still held (or whose lock stamp is still set)
+func locksHeld(x any) string {
+	out := []string{}
+	var walk func(v any, path string)
+	walk = func(v any, path string) {
+		if s, ok := stackage.ConvertStack(v); ok {
+			d := stackage.VerifDump(s)
+			if cfg, _ := d["cfg"].(map[string]any); cfg["mtxlocked"] == true || cfg["ldr"] == true {
+				out = append(out, path)
+			}
+			if sl, ok := d["slots"].([]any); ok {
+				for i, e := range sl {
+					walk(e, fmt.Sprintf("%s/%d", path, i))
+				}
+			}
+		} else if c, ok := stackage.ConvertCondition(v); ok {
+			walk(c.Expression(), path+"/ex")
+		}
+	}
+	walk(x, "")
+	return strings.Join(out, " ")
 }
 
 func (g *treeGen) revStack(depth int) Node {
